@@ -49,23 +49,21 @@ Definition c11_fails (c : cfg) (t : tstep) : list string :=
 Definition seen (c : cfg) (t : tstep) (m : dmsg) : dstate * lease :=
   findOrCreate c (parse_effect c (t_pre t) m) (getcid m) (m_chaddr m).
 
-Definition c11_class (c : cfg) (t : tstep) : option (string * list string) :=
+Inductive path := PRetained | PRequested | PSelectOffer | PSelectFree | PCurrent.
+
+(* the code path that produced an OFFER / ACK, when it is one of the unvalidated ones *)
+Definition reply_path (c : cfg) (t : tstep) : option path :=
   match t_op t, t_reply t with
   | ODiscover now m, Some r =>
       if is_offer r then
         let '(s1, l) := seen c t m in
         let l1 := discover_reset now l m in
         match l_offer l1 with
-        | Some _ =>
-            (* an earlier offer / the current lease is offered again without any check *)
-            Some ("c11-discover-retained-offer-unchecked",
-                  ["acked-elsewhere"; "tracked-other-mac"; "network"; "broadcast"; "outside"])
+        | Some _ => Some PRetained      (* an earlier offer / the current lease is offered again without any check *)
         | None =>
             match phase1 (t_ch t) (put s1 l1) l1 (m_req m) with
-            | Some _ =>
-                (* allocIPOffer takes the requested address: only Allocated leases and FindIP are consulted *)
-                Some ("c11-discover-requested-ip-unchecked", ["network"; "broadcast"; "outside"])
-            | None => None
+            | Some _ => Some PRequested (* allocIPOffer takes the requested address: only Allocated leases and FindIP are consulted *)
+            | None => None              (* pool scan *)
             end
         end
       else None
@@ -73,34 +71,40 @@ Definition c11_class (c : cfg) (t : tstep) : option (string * list string) :=
       if is_ack r then
         let '(_, l) := seen c t m in
         match l_state l with
-        | SDiscover =>
-            (* SELECT confirms the pending offer; other leases and the session are not consulted *)
-            Some ("c11-select-pending-offer-unchecked",
-                  ["acked-elsewhere"; "uniq"; "tracked-other-mac"; "network"; "broadcast"; "outside"])
-        | SFree =>
-            (* SELECT with our server id on a lease in state Free (unknown / expired / re-created) is ACKed *)
-            Some ("c11-select-free-lease-acked",
-                  ["acked-elsewhere"; "uniq"; "tracked-other-mac"; "network"; "broadcast"; "outside"])
-        | SAllocated =>
-            (* renew / rebind / reboot / repeated select of the current lease *)
-            Some ("c11-ack-current-lease-unchecked",
-                  ["acked-elsewhere"; "uniq"; "tracked-other-mac"; "network"; "broadcast"; "outside"])
+        | SDiscover => Some PSelectOffer  (* SELECT confirms the pending offer; other leases and the session are not consulted *)
+        | SFree => Some PSelectFree       (* SELECT with our server id on a lease in state Free (unknown / expired / re-created) *)
+        | SAllocated => Some PCurrent     (* renew / rebind / reboot / repeated select of the current lease *)
         end
       else None
   | _, _ => None
   end.
 
-Definition mem_str (x : string) (l : list string) : bool := existsb (String.eqb x) l.
-
-(* key of a failing step: Some key when every failed demand is one its class lists *)
-Definition step_key (cls : tstep -> option (string * list string)) (fails : list string) (t : tstep) : option string :=
-  match cls t with
-  | Some (k, allowed) => if forallb (fun f => mem_str f allowed) fails then Some k else None
-  | None => None
+Definition c11_class (c : cfg) (t : tstep) : list (string * list string) :=
+  match reply_path c t with
+  | Some PRetained => [("c11-discover-retained-offer-unchecked",
+                        ["acked-elsewhere"; "tracked-other-mac"; "network"; "broadcast"; "outside"])]
+  | Some PRequested => [("c11-discover-requested-ip-unchecked", ["network"; "broadcast"; "outside"])]
+  | Some PSelectOffer => [("c11-select-pending-offer-unchecked",
+                           ["acked-elsewhere"; "uniq"; "tracked-other-mac"; "network"; "broadcast"; "outside"])]
+  | Some PSelectFree => [("c11-select-free-lease-acked",
+                          ["acked-elsewhere"; "uniq"; "tracked-other-mac"; "network"; "broadcast"; "outside"])]
+  | Some PCurrent => [("c11-ack-current-lease-unchecked",
+                       ["acked-elsewhere"; "uniq"; "tracked-other-mac"; "network"; "broadcast"; "outside"])]
+  | None => []
   end.
 
+Definition mem_str (x : string) (l : list string) : bool := existsb (String.eqb x) l.
+
+(* key of a failing step: every failed demand must be listed by one of the step's classes;
+   the key is the first class that lists one of them *)
+Definition step_key (cls : tstep -> list (string * list string)) (fails : list string) (t : tstep) : option string :=
+  let cl := cls t in
+  if forallb (fun f => existsb (fun ka => mem_str f (snd ka)) cl) fails then
+    option_map fst (find (fun ka => existsb (fun f => mem_str f (snd ka)) fails) cl)
+  else None.
+
 (* key of a history: the class of its first failing step if every failing step is explained, else "-" *)
-Fixpoint hist_key (cls : tstep -> option (string * list string)) (fs : list (tstep * list string)) (first : option string) : string :=
+Fixpoint hist_key (cls : tstep -> list (string * list string)) (fs : list (tstep * list string)) (first : option string) : string :=
   match fs with
   | [] => match first with Some k => k | None => "-" end
   | (t, []) :: r => hist_key cls r first
@@ -116,9 +120,19 @@ Definition c12_fails (c : cfg) (t : tstep) : list string :=
   | Some m =>
       (match t_reply t with
        | Some r =>
-           (if c12_subnet c (t_pre t) m r then [] else ["subnet-config"])
-           ++ (if c12_mask_first r then [] else ["mask-after-router"])
-           ++ (if c12_ack_matches (t_pre t) m r then [] else ["ack-mismatch"])
+           if is_lease_reply r then
+             let b := client_net c (t_pre t) m in
+             (if n_contains c b (r_yi r) then [] else ["yi-outside"])
+             ++ (if obeqb (opt 3 r) (ipb (want_router c b)) then [] else ["router"])
+             ++ (if obeqb (opt 6 r) (ipb (want_dns c b)) then [] else ["dns"])
+             ++ (if obeqb (opt 1 r) (ipb (pmask (n_bits c b))) then [] else ["mask"])
+             ++ (if obeqb (opt 54 r) (ipb (c_hostip c)) then [] else ["server-id"])
+             ++ (if obeqb (opt 51 r) (ipb 14400) then [] else ["lease-time"])
+             ++ (if r_xid r =? m_xid m then [] else ["xid"])
+             ++ (if r_chaddr r =? m_chaddr m then [] else ["chaddr"])
+             ++ (if c12_mask_first r then [] else ["mask-after-router"])
+             ++ (if c12_ack_matches (t_pre t) m r then [] else ["ack-mismatch"])
+           else []
        | None => []
        end)
       ++ (if is_request (t_op t) && negb (c12_no_ack_when c (t_pre t) m (t_reply t)) then ["ack-unhonourable"] else [])
@@ -135,3 +149,35 @@ Definition show_fails (fs : list (list string)) : string := join " " (number_fai
 
 Definition all_nil (fs : list (list string)) : bool :=
   forallb (fun f => match f with [] => true | _ => false end) fs.
+
+(* ---------------------------------------------------------------- *)
+(* Recorded finding classes of C12 *)
+Fixpoint before (a b : N) (l : list N) : bool :=   (* a occurs, and before any b *)
+  match l with
+  | [] => false
+  | x :: r => if x =? a then true else if x =? b then false else before a b r
+  end.
+
+Definition c12_class (c : cfg) (t : tstep) : list (string * list string) :=
+  (match reply_path c t with
+   | Some PRetained => [("c12-discover-retained-offer-unchecked", ["yi-outside"])]
+   | Some PRequested => [("c12-discover-requested-ip-unchecked", ["yi-outside"])]
+   | Some PSelectOffer => [("c12-select-pending-offer-unchecked", ["yi-outside"; "ack-unhonourable"])]
+   | Some PSelectFree => [("c12-select-free-lease-acked", ["yi-outside"; "ack-mismatch"; "ack-unhonourable"])]
+   | Some PCurrent => [("c12-ack-current-lease-unchecked", ["yi-outside"; "ack-mismatch"; "ack-unhonourable"])]
+   | None => []
+   end)
+  ++ (* netfilter prefix = home LAN (the configuration of dhcp4_spoofer.New): findOrCreate compares the LANs
+        only, so a lease keeps the subnet (router, DNS) it was created with across capture / release *)
+  (match op_msg (t_op t), t_reply t with
+   | Some m, Some r =>
+       if is_lease_reply r && lan_same c false true
+          && negb (Bool.eqb (l_net2 (snd (seen c t m))) (client_net c (t_pre t) m))
+       then [("c12-same-lan-subnet-kept-across-capture", ["router"; "dns"])] else []
+   | _, _ => []
+   end)
+  ++ (* AppendOptions emits the client's parameter request list first: router before mask when it says so *)
+  (match op_msg (t_op t) with
+   | Some m => if before 3 1 (m_prl m) then [("c12-prl-router-before-mask", ["mask-after-router"])] else []
+   | None => []
+   end).
